@@ -23,6 +23,11 @@ def shards(mode, bin_, n, **kw):
 
 
 PROPS = {
+    "C15": {
+        "runs": [native("c15")],
+        "expect_monitors": ["cylinder_into_rgb_gamut", "rgb_into_cylinder_bounds_and_back"],
+        "assumptions": ASSUME_COMMON + ["port of Ottosson's ok_color.h (harness/src/refmodel/ok.rs) and of HSLuv rev4 as the independent reference; the tolerance for Ok* (1e-2 nonlinear, 1e-3 linear) is 1.5-2 x the gamut overshoot of the published approximation itself"],
+    },
     "C16": {
         "runs": [native("c16")],
         "expect_monitors": ["cam16_model_and_round_trips", "cam16_ucs"],
